@@ -167,6 +167,9 @@ func (mc *modelCache) find(q []*term.T) *term.Model {
 
 // check is the solver entry point for feasibility queries (with model cache).
 func (ex *Exec) check(q []*term.T, wantModel bool) (smt.Result, *term.Model) {
+	if !ex.cfg.Deadline.IsZero() && time.Now().After(ex.cfg.Deadline.Add(5*time.Second)) {
+		panic(pathEnd{kind: endBudget, msg: "wall-clock deadline reached before a solver query"})
+	}
 	if ex.mcache != nil {
 		if m := ex.mcache.find(q); m != nil {
 			return smt.Sat, m
